@@ -77,8 +77,9 @@ TRUSTED = [
     "RenderHtml, InertElement, the SELF_CLOSING/ESCAPE_CHILDREN tables), html_escape::{encode_text, "
     "encode_double_quoted_attribute}, slice::sort_by on < 21 elements (insertion sort), str::trim on ASCII blanks",
     "compared only, NOT modelled (PARTIAL): rstml parsing of the macro input, token plumbing / quote!, component and "
-    "slot expansion (twelve fixed components are rendered and checked by the oracle only), spreads, events, "
-    "directives, properties, node refs, inner_html, comments, the doctype, the global class form, {expr} children that are "
+    "slot expansion (twelve fixed components are rendered and checked by the oracle only), spreads, "
+    "inner_html, the doctype, the global class form (events, directives, properties, node refs are ONE model "
+    "constructor ASilent, comments NComment: what they are called with is not modelled), {expr} children that are "
     "not strings (Option, Vec, (), closures, nested view!), the streaming exits to_html_async_with_buf (must render the "
     "bytes of to_html(), otherwise judged by the oracle), the erase_components configuration (judged by the oracle), the "
     "resolution of the `use_` spelling of SVG <use> (the case encoder hands the model `use`) and of a / script / title "
@@ -1004,7 +1005,7 @@ def _item(tpl, kind, **kw):
     """compare = the template is expressible in the Coq AST; template! (variant 2) only for those (ViewTemplate
     wants ToTemplate, which components / closures do not have)"""
     it = dict(tpl=tpl, kind=kind, compare=modelable(tpl) and not kw.get("gclass"))
-    if "variants" not in kw and (not modelable(tpl) or any(x in json.dumps(tpl) for x in ('"k"', '"dv"'))):
+    if "variants" not in kw and (not modelable(tpl) or any(x in json.dumps(tpl) for x in ('"k"', '"dv"', '"ev"', '"pr"', '"us"', '"nr"'))):
         it["variants"] = [0, 1]
     it.update(kw)
     if it.pop("compare_off", False):
@@ -1103,7 +1104,9 @@ def html_tag(tag):
 
 def enc_attr(a, tag=""):
     k = a[0]
-    if k in ("ev", "pr", "us", "nr", "sx"):
+    if k in ("ev", "pr", "us", "nr"):
+        return [5]                        # ASilent: keeps the element off the inert path, renders nothing
+    if k == "sx":
         raise ValueError("not expressible in the model: %r" % (k,))
     if k == "p":
         v = a[2]
@@ -1132,6 +1135,8 @@ def enc_node(n):
         return [2, html_tag(n[1]), [enc_attr(a, n[1]) for a in n[2]], [enc_node(c) for c in n[3]]]
     if n[0] == "f":
         return [3, [enc_node(c) for c in n[1]]]
+    if n[0] == "cm":
+        return [4]                        # a comment: no view, but its parent is never inert
     if n[0] == "r":
         return [0, n[1]]                  # unquoted text: the same two code paths as a literal
     if n[0] == "k" and n[1] in BLOCK_LIKE_STRING:
